@@ -154,6 +154,9 @@ fn has_double_underscore(c: &CmdSpec) -> bool {
 
 struct Expect {
     depth: usize,
+    /// the level is a hidden subcommand or lies below one (its own name is not demanded, what it
+    /// defines is: a hidden subcommand is still a subcommand level)
+    hidden_level: bool,
     /// (item class, text that must occur)
     items: Vec<(&'static str, String)>,
 }
@@ -219,9 +222,7 @@ fn expectations(c: &CmdSpec, depth: usize, inherited_hidden: bool, out: &mut Vec
             }
         }
     }
-    if !inherited_hidden {
-        out.push(Expect { depth, items });
-    }
+    out.push(Expect { depth, hidden_level: inherited_hidden, items });
     for s in &c.subs {
         expectations(s, depth + 1, inherited_hidden || s.has(Setting::Hide), out);
     }
@@ -371,7 +372,7 @@ pub fn case(seed: u64, st: &mut Stats) {
                 if class.starts_with("short") {
                     continue; // one character: counted per shell format below
                 }
-                st.count("mention.checked");
+                st.count(if e.hidden_level { "mention.checked-inside-hidden-subcommand" } else { "mention.checked" });
                 if !s1.contains(text.as_str()) {
                     st.violation(
                         format!("c16:not-mentioned:{}:{}", g, class),
@@ -385,7 +386,7 @@ pub fn case(seed: u64, st: &mut Stats) {
         // hold at least as many option entries spelling `-c` (in the shell's own entry format) as
         // there are (level, visible argument) pairs carrying it
         let mut want: std::collections::BTreeMap<(char, &'static str), usize> = Default::default();
-        for e in exps.iter().filter(|e| e.depth <= max_depth) {
+        for e in exps.iter().filter(|e| e.depth <= max_depth && !e.hidden_level) {
             for (class, text) in e.items.iter().filter(|(c, _)| c.starts_with("short")) {
                 *want.entry((text.chars().next().unwrap(), class)).or_default() += 1;
             }
